@@ -139,6 +139,7 @@ func c06Run(r *Run) {
 		idx int
 	}
 	paramWriters := map[pw]token.Pos{}
+	sliceWriters := map[pw]token.Pos{} // functions that write cells of a []*ZVal parameter in place
 
 	refPreds := c06RefPredicates(pkgs)
 	r.stat("ref_bound_predicates", len(refPreds))
@@ -148,14 +149,57 @@ func c06Run(r *Run) {
 			fk := funcKey(p, fd)
 			// local origins
 			org := map[types.Object]origin{}
+			sliceParam := map[types.Object]int{} // []*ZVal parameters → index
+			elemOfParam := map[types.Object]int{} // cells taken from such a parameter → its index
 			if fd.Type.Params != nil {
+				k := 0
 				for _, f := range fd.Type.Params.List {
 					for _, nm := range f.Names {
 						if o := info.Defs[nm]; o != nil && isZ(o.Type()) {
 							org[o] = oParam
 						}
+						if o := info.Defs[nm]; o != nil {
+							if sl, ok := o.Type().Underlying().(*types.Slice); ok && isZ(sl.Elem()) {
+								sliceParam[o] = k
+							}
+						}
+						k++
+					}
+					if len(f.Names) == 0 {
+						k++
 					}
 				}
+			}
+			if len(sliceParam) > 0 {
+				ast.Inspect(fd.Body, func(n ast.Node) bool {
+					switch x := n.(type) {
+					case *ast.RangeStmt:
+						if id, ok := ast.Unparen(x.X).(*ast.Ident); ok {
+							if pi, ok := sliceParam[info.Uses[id]]; ok {
+								if vid, ok := x.Value.(*ast.Ident); ok {
+									if o := info.Defs[vid]; o != nil {
+										elemOfParam[o] = pi
+									}
+								}
+							}
+						}
+					case *ast.AssignStmt:
+						if len(x.Lhs) == 1 && len(x.Rhs) == 1 {
+							if ix, ok := ast.Unparen(x.Rhs[0]).(*ast.IndexExpr); ok {
+								if id, ok := ast.Unparen(ix.X).(*ast.Ident); ok {
+									if pi, ok := sliceParam[info.Uses[id]]; ok {
+										if lid, ok := x.Lhs[0].(*ast.Ident); ok {
+											if o := info.Defs[lid]; o != nil {
+												elemOfParam[o] = pi
+											}
+										}
+									}
+								}
+							}
+						}
+					}
+					return true
+				})
 			}
 			var exprOrigin func(e ast.Expr) origin
 			exprOrigin = func(e ast.Expr) origin {
@@ -227,6 +271,27 @@ func c06Run(r *Run) {
 					se, ok := ast.Unparen(l).(*ast.SelectorExpr)
 					if !ok || (se.Sel.Name != "Value" && se.Sel.Name != "Name") || !isZ(info.TypeOf(se.X)) {
 						continue
+					}
+					// a write through a cell taken from a []*ZVal parameter: judged where the list is handed in
+					if !guardedAt[as.Pos()] {
+						var pi = -1
+						switch b := ast.Unparen(se.X).(type) {
+						case *ast.Ident:
+							if i, ok := elemOfParam[info.Uses[b]]; ok {
+								pi = i
+							}
+						case *ast.IndexExpr:
+							if id, ok := ast.Unparen(b.X).(*ast.Ident); ok {
+								if i, ok := sliceParam[info.Uses[id]]; ok {
+									pi = i
+								}
+							}
+						}
+						if pi >= 0 {
+							if f, ok := info.Defs[fd.Name].(*types.Func); ok {
+								sliceWriters[pw{f, pi}] = as.Pos()
+							}
+						}
 					}
 					if se.Sel.Name == "Name" {
 						// the key of a cell is part of what an array copy shares: renaming a slot-list cell in
@@ -304,6 +369,13 @@ func c06Run(r *Run) {
 				cal, ok := calleeOf(info, c).(*types.Func)
 				if !ok {
 					return true
+				}
+				for i, a := range c.Args {
+					if _, ok := sliceWriters[pw{cal, i}]; ok {
+						if se, ok := ast.Unparen(a).(*ast.SelectorExpr); ok && se.Sel.Name == "List" && isArr(info.TypeOf(se.X)) {
+							r.bad(fk+"#passes-slot-list:"+cal.Name(), c.Pos(), "hands an array's slot list to "+cal.Name()+", which writes the cells (value or key) in place: the cells are shared with every copy of the array, so the copies change too")
+						}
+					}
 				}
 				for i, a := range c.Args {
 					if _, ok := paramWriters[pw{cal, i}]; !ok {
